@@ -1,2 +1,522 @@
-(* Proofs/SeqProofsB.v *)
+(* Proofs/SeqProofsB.v — C13: DNATo2Bit, DNAFrom2Bit, Ntoi, Iton. *)
+From Coq Require Import String.
 From Bio Require Import Base.
+From Bio.gen Require Import Tables.
+From Bio.Model Require Import Seq.
+From Bio.Spec Require Import SeqSpec.
+From Bio.Proofs Require Import TranslateProofs SeqProofs.
+
+(* ---- the 2-bit codes of the spec ------------------------------------------------- *)
+Definition code2z (b : byte) : N := match code2 b with Some c => c | None => 0 end.
+
+Ltac code2_cases b :=
+  unfold code2;
+  repeat match goal with
+  | |- context [N.eqb b ?y] =>
+    destruct (N.eqb_spec b y) as [->|?]; cbn [orb];
+    [intros H; inversion H; subst; try reflexivity; try (vm_compute; reflexivity)|]
+  end;
+  try discriminate.
+
+Lemma code2_lt4 b c : code2 b = Some c -> c < 4.
+Proof. code2_cases b. Qed.
+
+Lemma code2_range b c : code2 b = Some c -> b < 256.
+Proof. code2_cases b. Qed.
+
+Lemma base_of_upper b c : code2 b = Some c -> base_of c = upper_byte b.
+Proof. code2_cases b. Qed.
+
+Lemma code2_base_of c : c < 4 -> code2 (base_of c) = Some c.
+Proof.
+  intros H. assert (K : c = 0 \/ c = 1 \/ c = 2 \/ c = 3) by lia.
+  destruct K as [-> | [-> | [-> | ->]]]; reflexivity.
+Qed.
+
+Lemma code2_some_iff b : is_dna8 b = true <-> exists c, code2 b = Some c.
+Proof.
+  unfold is_dna8, base_index, code2.
+  destruct (b =? 84), (b =? 116), (b =? 67), (b =? 99), (b =? 65), (b =? 97), (b =? 71), (b =? 103);
+    cbn [orb]; split; intros H; try reflexivity; try discriminate; eauto; destruct H; discriminate.
+Qed.
+
+Lemma code2_none_iff b : is_dna8 b = false <-> code2 b = None.
+Proof.
+  pose proof (code2_some_iff b) as K. destruct (is_dna8 b); destruct (code2 b) as [c|].
+  - split; discriminate.
+  - destruct (proj1 K eq_refl). discriminate.
+  - assert (false = true) by (apply K; eauto). discriminate.
+  - split; reflexivity.
+Qed.
+
+Lemma dna8_code2 b : is_dna8 b = true -> code2 b = Some (code2z b).
+Proof. intros H. apply code2_some_iff in H. destruct H as [c E]. unfold code2z. rewrite E. reflexivity. Qed.
+
+Lemma code2z_lt4 b : code2z b < 4.
+Proof. unfold code2z. destruct (code2 b) eqn:E; [eapply code2_lt4; eassumption|reflexivity]. Qed.
+
+(* ---- Ntoi / code against the regenerated table --------------------------------------- *)
+Lemma ntoi_tab_length : length ntoi_tab = 256%nat.
+Proof. vm_compute. reflexivity. Qed.
+
+Lemma ntoi_not_byte b : 256 <= b -> ntoi b = (-1)%Z.
+Proof.
+  intros H. unfold ntoi, tab_get.
+  replace (nth_error ntoi_tab (N.to_nat b)) with (@None Z); [reflexivity|].
+  symmetry. apply nth_error_None. rewrite ntoi_tab_length. lia.
+Qed.
+
+Definition ntoi_spec (b : byte) : Z := match code2 b with Some c => Z.of_N c | None => (-1)%Z end.
+
+Lemma ntoi_sweep : forallb (fun b => Z.eqb (ntoi b) (ntoi_spec b)) bytes256 = true.
+Proof. vm_compute. reflexivity. Qed.
+
+Lemma ntoi_exact b : ntoi b = ntoi_spec b.
+Proof.
+  destruct (N.lt_ge_cases b 256) as [Hlt|Hge].
+  - pose proof ntoi_sweep as S. rewrite forallb_forall in S.
+    apply Z.eqb_eq. apply S. apply in_bytes256. exact Hlt.
+  - rewrite ntoi_not_byte by exact Hge. unfold ntoi_spec.
+    destruct (code2 b) as [c|] eqn:E; [|reflexivity]. apply code2_range in E. lia.
+Qed.
+
+Lemma code_exact b : code b = code2 b.
+Proof.
+  unfold code. rewrite ntoi_exact. unfold ntoi_spec. destruct (code2 b) as [c|].
+  - replace (Z.of_N c <? 0)%Z with false by (symmetry; apply Z.ltb_ge; lia).
+    rewrite N2Z.id. reflexivity.
+  - reflexivity.
+Qed.
+
+(* ---- Iton ------------------------------------------------------------------------------ *)
+Lemma iton_base c : c < 4 -> iton (Z.of_N c) = base_of c.
+Proof.
+  intros H. assert (K : c = 0 \/ c = 1 \/ c = 2 \/ c = 3) by lia.
+  destruct K as [-> | [-> | [-> | ->]]]; vm_compute; reflexivity.
+Qed.
+
+Definition iton_outside_check : bool :=
+  forallb (fun p => ((0 <=? fst p)%Z && (fst p <=? 3)%Z) || (snd p =? 78)) iton_tab
+  && (iton_default =? 78).
+
+Lemma iton_outside_ok : iton_outside_check = true.
+Proof. vm_compute. reflexivity. Qed.
+
+Lemma iton_outside i : (i < 0 \/ 3 < i)%Z -> iton i = 78.
+Proof.
+  intros H. pose proof iton_outside_ok as C. unfold iton_outside_check in C.
+  apply andb_true_iff in C. destruct C as [C D]. apply N.eqb_eq in D.
+  unfold iton. destruct (find _ iton_tab) as [p|] eqn:F; [|exact D].
+  apply find_some in F. destruct F as [Hin Hp]. apply Z.eqb_eq in Hp.
+  rewrite forallb_forall in C. specialize (C p Hin).
+  apply orb_true_iff in C. destruct C as [C|C].
+  - apply andb_true_iff in C. destruct C as [C1 C2].
+    apply Z.leb_le in C1, C2. lia.
+  - apply N.eqb_eq. exact C.
+Qed.
+
+Lemma ntoi_iton i : (0 <= i <= 3)%Z -> ntoi (iton i) = i /\ iton i = base_of (Z.to_N i).
+Proof.
+  intros H. assert (K : (i = 0 \/ i = 1 \/ i = 2 \/ i = 3)%Z) by lia.
+  destruct K as [-> | [-> | [-> | ->]]]; vm_compute; split; reflexivity.
+Qed.
+
+Lemma ntoi_iton_inverse :
+  (forall b c, code2 b = Some c -> ntoi b = Z.of_N c /\ iton (ntoi b) = upper_byte b)
+  /\ (forall b, is_dna8 b = false -> ntoi b = (-1)%Z)
+  /\ (forall i, (0 <= i <= 3)%Z -> ntoi (iton i) = i /\ is_dna8 (iton i) = true)
+  /\ (forall i, (i < 0 \/ 3 < i)%Z -> iton i = 78).
+Proof.
+  split; [|split; [|split]].
+  - intros b c E. rewrite ntoi_exact. unfold ntoi_spec. rewrite E. split; [reflexivity|].
+    rewrite iton_base by (eapply code2_lt4; eassumption). apply base_of_upper. exact E.
+  - intros b H. rewrite ntoi_exact. unfold ntoi_spec. apply code2_none_iff in H. rewrite H. reflexivity.
+  - intros i H. destruct (ntoi_iton i H) as [E1 E2]. split; [exact E1|].
+    rewrite E2. apply code2_some_iff. exists (Z.to_N i). apply code2_base_of. lia.
+  - exact iton_outside.
+Qed.
+
+(* ---- bit-level facts: a sweep over the 4^4 code tuples ---------------------------------- *)
+Definition codes4 : list N := [0; 1; 2; 3].
+
+Lemma in_codes4 c : c < 4 -> In c codes4.
+Proof.
+  intros H. assert (K : c = 0 \/ c = 1 \/ c = 2 \/ c = 3) by lia.
+  unfold codes4. simpl. destruct K as [-> | [-> | [-> | ->]]]; auto.
+Qed.
+
+Definition sweep4 (f : N -> N -> N -> N -> bool) : bool :=
+  forallb (fun a => forallb (fun b => forallb (fun c => forallb (fun d => f a b c d) codes4) codes4) codes4) codes4.
+
+Lemma sweep4_lift f : sweep4 f = true ->
+  forall a b c d, a < 4 -> b < 4 -> c < 4 -> d < 4 -> f a b c d = true.
+Proof.
+  intros S a b c d Ha Hb Hc Hd. unfold sweep4 in S.
+  rewrite forallb_forall in S. specialize (S a (in_codes4 a Ha)).
+  rewrite forallb_forall in S. specialize (S b (in_codes4 b Hb)).
+  rewrite forallb_forall in S. specialize (S c (in_codes4 c Hc)).
+  rewrite forallb_forall in S. exact (S d (in_codes4 d Hd)).
+Qed.
+
+(* lor of disjoint shifted 2-bit codes, built up one base at a time *)
+Definition bits_check (a b c d : N) : bool :=
+  (N.lor 0 (N.shiftl a 6) =? pack4 a 0 0 0)
+  && (N.lor (pack4 a 0 0 0) (N.shiftl b 4) =? pack4 a b 0 0)
+  && (N.lor (pack4 a b 0 0) (N.shiftl c 2) =? pack4 a b c 0)
+  && (N.lor (pack4 a b c 0) (N.shiftl d 0) =? pack4 a b c d).
+
+Lemma bits_sweep : sweep4 bits_check = true.
+Proof. vm_compute. reflexivity. Qed.
+
+Lemma bits_ok a b c d : a < 4 -> b < 4 -> c < 4 -> d < 4 ->
+  N.lor 0 (N.shiftl a 6) = pack4 a 0 0 0
+  /\ N.lor (pack4 a 0 0 0) (N.shiftl b 4) = pack4 a b 0 0
+  /\ N.lor (pack4 a b 0 0) (N.shiftl c 2) = pack4 a b c 0
+  /\ N.lor (pack4 a b c 0) (N.shiftl d 0) = pack4 a b c d.
+Proof.
+  intros Ha Hb Hc Hd. pose proof (sweep4_lift _ bits_sweep a b c d Ha Hb Hc Hd) as K.
+  unfold bits_check in K.
+  apply andb_true_iff in K. destruct K as [K K4].
+  apply andb_true_iff in K. destruct K as [K K3].
+  apply andb_true_iff in K. destruct K as [K1 K2].
+  apply N.eqb_eq in K1, K2, K3, K4. auto.
+Qed.
+
+Lemma lt04 : 0 < 4. Proof. reflexivity. Qed.
+
+(* the decoding table: from2bit_tab[64a+16b+4c+d] = [ACGT[a]; ACGT[b]; ACGT[c]; ACGT[d]] *)
+Definition decode_check (a b c d : N) : bool :=
+  match from2bit_byte (pack4 a b c d) with
+  | Some l => beqb l [base_of a; base_of b; base_of c; base_of d]
+  | None => false
+  end.
+
+Lemma decode_sweep : sweep4 decode_check = true.
+Proof. vm_compute. reflexivity. Qed.
+
+Lemma beqb_eq a b : beqb a b = true -> a = b.
+Proof.
+  revert b. induction a as [|x a IH]; intros [|y b]; cbn [beqb]; try discriminate; [reflexivity|].
+  intros H. apply andb_true_iff in H. destruct H as [H1 H2]. apply N.eqb_eq in H1. apply IH in H2. congruence.
+Qed.
+
+Lemma from2bit_pack4 a b c d : a < 4 -> b < 4 -> c < 4 -> d < 4 ->
+  from2bit_byte (pack4 a b c d) = Some [base_of a; base_of b; base_of c; base_of d].
+Proof.
+  intros Ha Hb Hc Hd. pose proof (sweep4_lift _ decode_sweep a b c d Ha Hb Hc Hd) as K.
+  unfold decode_check in K. destruct (from2bit_byte (pack4 a b c d)) as [l|]; [|discriminate].
+  f_equal. apply beqb_eq. exact K.
+Qed.
+
+(* every byte decodes to four bases whose codes pack back to the byte *)
+Definition recode_check (p : byte) : bool :=
+  match from2bit_byte p with
+  | Some [w; x; y; z] =>
+    match code2 w, code2 x, code2 y, code2 z with
+    | Some a, Some b, Some c, Some d => pack4 a b c d =? p
+    | _, _, _, _ => false
+    end
+  | _ => false
+  end.
+
+Lemma recode_sweep : forallb recode_check bytes256 = true.
+Proof. vm_compute. reflexivity. Qed.
+
+Lemma from2bit_recode p : p < 256 ->
+  exists w x y z a b c d, from2bit_byte p = Some [w; x; y; z]
+    /\ code2 w = Some a /\ code2 x = Some b /\ code2 y = Some c /\ code2 z = Some d
+    /\ pack4 a b c d = p.
+Proof.
+  intros H. pose proof recode_sweep as S. rewrite forallb_forall in S.
+  specialize (S p (in_bytes256 p H)). unfold recode_check in S.
+  destruct (from2bit_byte p) as [[|w [|x [|y [|z [|? ?]]]]]|]; try discriminate.
+  destruct (code2 w) as [a|] eqn:Ew; [|discriminate]. destruct (code2 x) as [b|] eqn:Ex; [|discriminate].
+  destruct (code2 y) as [c|] eqn:Ey; [|discriminate]. destruct (code2 z) as [d|] eqn:Ez; [|discriminate].
+  apply N.eqb_eq in S. exists w, x, y, z, a, b, c, d. repeat split; try reflexivity; assumption.
+Qed.
+
+Lemma from2bit_tab_length : @length bytes from2bit_tab = 256%nat.
+Proof. vm_compute. reflexivity. Qed.
+
+Lemma from2bit_not_byte p : 256 <= p -> from2bit_byte p = None.
+Proof. intros H. unfold from2bit_byte, tab_get. apply nth_error_None. pose proof from2bit_tab_length. lia. Qed.
+
+(* ---- one step of DNATo2Bit ------------------------------------------------------------------ *)
+Lemma mod4_1 i : i mod 4 = 0 -> (i + 1) mod 4 = 1.
+Proof. intros H. rewrite N.add_mod by discriminate. rewrite H. reflexivity. Qed.
+Lemma mod4_2 i : i mod 4 = 1 -> (i + 1) mod 4 = 2.
+Proof. intros H. rewrite N.add_mod by discriminate. rewrite H. reflexivity. Qed.
+Lemma mod4_3 i : i mod 4 = 2 -> (i + 1) mod 4 = 3.
+Proof. intros H. rewrite N.add_mod by discriminate. rewrite H. reflexivity. Qed.
+Lemma mod4_0 i : i mod 4 = 3 -> (i + 1) mod 4 = 0.
+Proof. intros H. rewrite N.add_mod by discriminate. rewrite H. reflexivity. Qed.
+
+Lemma step_none st b : code2 b = None -> to2bit_step (Ok st) b = Panic.
+Proof.
+  intros E. destruct st as [acc i]. unfold to2bit_step. cbn [obind].
+  rewrite code_exact, E. reflexivity.
+Qed.
+
+Lemma step0 acc i b c : i mod 4 = 0 -> code2 b = Some c ->
+  to2bit_step (Ok (acc, i)) b = Ok (pack4 c 0 0 0 :: acc, i + 1).
+Proof.
+  intros H E. pose proof (code2_lt4 b c E) as Hc.
+  unfold to2bit_step. cbn [obind]. rewrite code_exact, E, H.
+  change (6 - 2 * 0) with 6. cbv zeta. change (6 =? 6) with true. cbv iota.
+  destruct (bits_ok c 0 0 0 Hc lt04 lt04 lt04) as (K & _). rewrite K. reflexivity.
+Qed.
+
+Lemma step1 acc i b a c : i mod 4 = 1 -> a < 4 -> code2 b = Some c ->
+  to2bit_step (Ok (pack4 a 0 0 0 :: acc, i)) b = Ok (pack4 a c 0 0 :: acc, i + 1).
+Proof.
+  intros H Ha E. pose proof (code2_lt4 b c E) as Hc.
+  unfold to2bit_step. cbn [obind]. rewrite code_exact, E, H.
+  change (6 - 2 * 1) with 4. cbv zeta. change (4 =? 6) with false. cbv iota.
+  destruct (bits_ok a c 0 0 Ha Hc lt04 lt04) as (_ & K & _). rewrite K. reflexivity.
+Qed.
+
+Lemma step2 acc i b a a' c : i mod 4 = 2 -> a < 4 -> a' < 4 -> code2 b = Some c ->
+  to2bit_step (Ok (pack4 a a' 0 0 :: acc, i)) b = Ok (pack4 a a' c 0 :: acc, i + 1).
+Proof.
+  intros H Ha Ha' E. pose proof (code2_lt4 b c E) as Hc.
+  unfold to2bit_step. cbn [obind]. rewrite code_exact, E, H.
+  change (6 - 2 * 2) with 2. cbv zeta. change (2 =? 6) with false. cbv iota.
+  destruct (bits_ok a a' c 0 Ha Ha' Hc lt04) as (_ & _ & K & _). rewrite K. reflexivity.
+Qed.
+
+Lemma step3 acc i b a a' a'' c : i mod 4 = 3 -> a < 4 -> a' < 4 -> a'' < 4 -> code2 b = Some c ->
+  to2bit_step (Ok (pack4 a a' a'' 0 :: acc, i)) b = Ok (pack4 a a' a'' c :: acc, i + 1).
+Proof.
+  intros H Ha Ha' Ha'' E. pose proof (code2_lt4 b c E) as Hc.
+  unfold to2bit_step. cbn [obind]. rewrite code_exact, E, H.
+  change (6 - 2 * 3) with 0. cbv zeta. change (0 =? 6) with false. cbv iota.
+  destruct (bits_ok a a' a'' c Ha Ha' Ha'' Hc) as (_ & _ & _ & K). rewrite K. reflexivity.
+Qed.
+
+Lemma fold_cons (st : outcome (bytes * N)) b s :
+  fold_left to2bit_step (b :: s) st = fold_left to2bit_step s (to2bit_step st b).
+Proof. reflexivity. Qed.
+
+Lemma fold_panic s : fold_left to2bit_step s Panic = Panic.
+Proof. induction s as [|b s IH]; [reflexivity|]. rewrite fold_cons. exact IH. Qed.
+
+(* ---- four bases at a time --------------------------------------------------------------------- *)
+(* the packed bytes of a list of codes: groups of four, first code most
+   significant, a final partial group padded with code 0 *)
+Fixpoint pack_codes (cs : list N) : bytes :=
+  match cs with
+  | [] => []
+  | [a] => [pack4 a 0 0 0]
+  | [a; b] => [pack4 a b 0 0]
+  | [a; b; c] => [pack4 a b c 0]
+  | a :: b :: c :: d :: r => pack4 a b c d :: pack_codes r
+  end.
+
+Lemma to2bit_fold s : forall acc i, i mod 4 = 0 ->
+  fold_left to2bit_step s (Ok (acc, i)) =
+  match all_some (map code2 s) with
+  | Some cs => Ok (rev (pack_codes cs) ++ acc, i + N.of_nat (length s))
+  | None => Panic
+  end.
+Proof.
+  induction s as [s IH] using (well_founded_induction (Wf_nat.well_founded_ltof _ (@length N))).
+  intros acc i H0.
+  destruct s as [|a s]; [cbn; rewrite N.add_0_r; reflexivity|].
+  rewrite fold_cons. cbn [map all_some].
+  destruct (code2 a) as [ca|] eqn:Ea; [|rewrite (step_none _ _ Ea), fold_panic; reflexivity].
+  rewrite (step0 _ _ _ _ H0 Ea). pose proof (code2_lt4 _ _ Ea) as Ha. pose proof (mod4_1 _ H0) as H1.
+  destruct s as [|b s]; [cbn; f_equal; f_equal; lia|].
+  rewrite fold_cons. cbn [map all_some].
+  destruct (code2 b) as [cb|] eqn:Eb; [|rewrite (step_none _ _ Eb), fold_panic; reflexivity].
+  rewrite (step1 _ _ _ _ _ H1 Ha Eb). pose proof (code2_lt4 _ _ Eb) as Hb. pose proof (mod4_2 _ H1) as H2.
+  destruct s as [|c s]; [cbn; f_equal; f_equal; lia|].
+  rewrite fold_cons. cbn [map all_some].
+  destruct (code2 c) as [cc|] eqn:Ec; [|rewrite (step_none _ _ Ec), fold_panic; reflexivity].
+  rewrite (step2 _ _ _ _ _ _ H2 Ha Hb Ec). pose proof (code2_lt4 _ _ Ec) as Hc. pose proof (mod4_3 _ H2) as H3.
+  destruct s as [|d s]; [cbn; f_equal; f_equal; lia|].
+  rewrite fold_cons. cbn [map all_some].
+  destruct (code2 d) as [cd|] eqn:Ed; [|rewrite (step_none _ _ Ed), fold_panic; reflexivity].
+  rewrite (step3 _ _ _ _ _ _ _ H3 Ha Hb Hc Ed). pose proof (mod4_0 _ H3) as H4.
+  rewrite IH; [|unfold Wf_nat.ltof; simpl; lia|exact H4].
+  destruct (all_some (map code2 s)) as [cs|]; [|reflexivity].
+  cbn [pack_codes rev]. rewrite <- app_assoc. cbn [app].
+  f_equal. f_equal. cbn [length]. lia.
+Qed.
+
+(* DNATo2Bit, exactly, for every input *)
+Lemma to2bit_exact dst s :
+  to2bit dst s =
+  match all_some (map code2 s) with
+  | Some cs => Ok (dst ++ pack_codes cs)
+  | None => Panic
+  end.
+Proof.
+  unfold to2bit. rewrite to2bit_fold by reflexivity.
+  destruct (all_some (map code2 s)) as [cs|]; [|reflexivity].
+  rewrite app_nil_r, rev_involutive. reflexivity.
+Qed.
+
+Lemma dna8_codes s : dna8 s -> all_some (map code2 s) = Some (map code2z s).
+Proof.
+  intros H. apply all_some_map_some. eapply Forall_impl; [|exact H].
+  intros b Hb. apply dna8_code2. exact Hb.
+Qed.
+
+Lemma to2bit_ok dst s : dna8 s -> to2bit dst s = Ok (dst ++ pack_codes (map code2z s)).
+Proof. intros H. rewrite to2bit_exact, dna8_codes by exact H. reflexivity. Qed.
+
+Lemma to2bit_panics_iff dst s :
+  to2bit dst s = Panic <-> Exists (fun b => is_dna8 b = false) s.
+Proof.
+  rewrite to2bit_exact. destruct (all_some (map code2 s)) as [cs|] eqn:E.
+  - split; [discriminate|]. intros H. exfalso.
+    assert (N : all_some (map code2 s) = None).
+    { apply all_some_map_none. eapply Exists_impl; [|exact H].
+      intros b Hb. apply code2_none_iff. exact Hb. }
+    congruence.
+  - split; [|reflexivity]. intros _. apply all_some_map_none in E.
+    eapply Exists_impl; [|exact E]. intros b Hb. apply code2_none_iff. exact Hb.
+Qed.
+
+Lemma to2bit_append dst s p : to2bit [] s = Ok p -> to2bit dst s = Ok (dst ++ p).
+Proof.
+  rewrite !to2bit_exact. destruct (all_some (map code2 s)); [|discriminate].
+  cbn [app]. intros H. inversion H. reflexivity.
+Qed.
+
+(* ---- length and layout of the packed bytes ------------------------------------------------------ *)
+Lemma pack_codes_length cs : length (pack_codes cs) = ((length cs + 3) / 4)%nat.
+Proof.
+  induction cs as [cs IH] using (well_founded_induction (Wf_nat.well_founded_ltof _ (@length N))).
+  destruct cs as [|a [|b [|c [|d r]]]]; try reflexivity.
+  cbn [pack_codes length]. rewrite IH by (unfold Wf_nat.ltof; simpl; lia).
+  replace (S (S (S (S (length r)))) + 3)%nat with (length r + 3 + 1 * 4)%nat by lia.
+  rewrite Nat.div_add by discriminate. lia.
+Qed.
+
+Definition cnth (cs : list N) (i : nat) : N := nth i cs 0.
+
+Lemma pack_codes_nth cs : forall j, (4 * j < length cs)%nat ->
+  nth_error (pack_codes cs) j =
+  Some (pack4 (cnth cs (4 * j)) (cnth cs (4 * j + 1)) (cnth cs (4 * j + 2)) (cnth cs (4 * j + 3))).
+Proof.
+  induction cs as [cs IH] using (well_founded_induction (Wf_nat.well_founded_ltof _ (@length N))).
+  intros j Hj. destruct j as [|j].
+  - destruct cs as [|a [|b [|c [|d r]]]]; try reflexivity. simpl in Hj. lia.
+  - destruct cs as [|a [|b [|c [|d r]]]]; try (simpl in Hj; lia).
+    cbn [pack_codes nth_error].
+    rewrite IH; [|unfold Wf_nat.ltof; simpl; lia|simpl in Hj; lia].
+    replace (4 * S j)%nat with (S (S (S (S (4 * j))))) by lia.
+    replace (S (S (S (S (4 * j)))) + 1)%nat with (S (S (S (S (4 * j + 1))))) by lia.
+    replace (S (S (S (S (4 * j)))) + 2)%nat with (S (S (S (S (4 * j + 2))))) by lia.
+    replace (S (S (S (S (4 * j)))) + 3)%nat with (S (S (S (S (4 * j + 3))))) by lia.
+    reflexivity.
+Qed.
+
+Lemma cnth_code_at s i : cnth (map code2z s) i = code_at s i.
+Proof.
+  unfold cnth, code_at. revert i. induction s as [|b s IH]; intros [|i]; try reflexivity.
+  cbn [map nth nth_error]. apply IH.
+Qed.
+
+Lemma to2bit_length dst s : dna8 s ->
+  exists p, to2bit dst s = Ok (dst ++ p) /\ length p = ((length s + 3) / 4)%nat.
+Proof.
+  intros H. eexists. split; [apply to2bit_ok; exact H|].
+  rewrite pack_codes_length, map_length. reflexivity.
+Qed.
+
+Lemma to2bit_msb_first dst s : dna8 s ->
+  exists p, to2bit dst s = Ok (dst ++ p) /\
+    forall j, (4 * j < length s)%nat ->
+      nth_error p j =
+      Some (64 * code_at s (4 * j) + 16 * code_at s (4 * j + 1)
+            + 4 * code_at s (4 * j + 2) + code_at s (4 * j + 3)).
+Proof.
+  intros H. eexists. split; [apply to2bit_ok; exact H|].
+  intros j Hj. rewrite pack_codes_nth by (rewrite map_length; exact Hj).
+  rewrite !cnth_code_at. reflexivity.
+Qed.
+
+(* ---- DNAFrom2Bit ------------------------------------------------------------------------------------ *)
+Lemma mod4_shift n : Nat.modulo (S (S (S (S n)))) 4 = Nat.modulo n 4.
+Proof.
+  replace (S (S (S (S n)))) with (n + 1 * 4)%nat by lia.
+  apply Nat.mod_add. discriminate.
+Qed.
+
+Lemma from_pack cs : Forall (fun c => c < 4) cs ->
+  exists ls, all_some (map from2bit_byte (pack_codes cs)) = Some ls /\
+    concat ls = map base_of cs ++ repeat 65 (Nat.modulo (4 - Nat.modulo (length cs) 4) 4).
+Proof.
+  induction cs as [cs IH] using (well_founded_induction (Wf_nat.well_founded_ltof _ (@length N))).
+  intros F. destruct cs as [|a [|b [|c [|d r]]]].
+  - exists []. split; reflexivity.
+  - inversion F as [|? ? Ha _]; subst.
+    exists [[base_of a; base_of 0; base_of 0; base_of 0]]. split; [|reflexivity].
+    cbn [pack_codes map all_some]. rewrite from2bit_pack4 by (assumption || reflexivity). reflexivity.
+  - inversion F as [|? ? Ha F1]; subst. inversion F1 as [|? ? Hb _]; subst.
+    exists [[base_of a; base_of b; base_of 0; base_of 0]]. split; [|reflexivity].
+    cbn [pack_codes map all_some]. rewrite from2bit_pack4 by (assumption || reflexivity). reflexivity.
+  - inversion F as [|? ? Ha F1]; subst. inversion F1 as [|? ? Hb F2]; subst. inversion F2 as [|? ? Hc _]; subst.
+    exists [[base_of a; base_of b; base_of c; base_of 0]]. split; [|reflexivity].
+    cbn [pack_codes map all_some]. rewrite from2bit_pack4 by (assumption || reflexivity). reflexivity.
+  - inversion F as [|? ? Ha F1]; subst. inversion F1 as [|? ? Hb F2]; subst.
+    inversion F2 as [|? ? Hc F3]; subst. inversion F3 as [|? ? Hd F4]; subst.
+    destruct (IH r) as [ls [E1 E2]]; [unfold Wf_nat.ltof; simpl; lia|exact F4|].
+    exists ([base_of a; base_of b; base_of c; base_of d] :: ls). split.
+    + cbn [pack_codes map all_some]. rewrite from2bit_pack4 by assumption. rewrite E1. reflexivity.
+    + cbn [concat]. rewrite E2. cbn [length]. rewrite mod4_shift. reflexivity.
+Qed.
+
+Lemma from_to s : dna8 s ->
+  exists p, to2bit [] s = Ok p /\
+    from2bit [] p = Ok (map upper_byte s ++ repeat 65 (Nat.modulo (4 - Nat.modulo (length s) 4) 4)).
+Proof.
+  intros H. exists (pack_codes (map code2z s)). split; [apply (to2bit_ok [] s H)|].
+  destruct (from_pack (map code2z s)) as [ls [E1 E2]].
+  { apply Forall_forall. intros c Hc. apply in_map_iff in Hc. destruct Hc as [b [<- _]]. apply code2z_lt4. }
+  unfold from2bit. rewrite E1. cbn [app]. rewrite E2. rewrite map_length, map_map.
+  f_equal. f_equal. apply map_ext_in. intros b Hb.
+  unfold dna8 in H. rewrite Forall_forall in H. specialize (H b Hb).
+  apply base_of_upper. apply dna8_code2. exact H.
+Qed.
+
+Lemma to_from_codes p : Forall (fun b => b < 256) p ->
+  exists ls cs, all_some (map from2bit_byte p) = Some ls
+    /\ all_some (map code2 (concat ls)) = Some cs /\ pack_codes cs = p.
+Proof.
+  induction 1 as [|b p Hb _ IH].
+  - exists [], []. repeat split.
+  - destruct IH as (ls & cs & E1 & E2 & E3).
+    destruct (from2bit_recode b Hb) as (w & x & y & z & ca & cb & cc & cd & Eb & Ew & Ex & Ey & Ez & Ep).
+    exists ([w; x; y; z] :: ls), (ca :: cb :: cc :: cd :: cs). split; [|split].
+    + cbn [map all_some]. rewrite Eb, E1. reflexivity.
+    + cbn [concat app map all_some]. rewrite Ew, Ex, Ey, Ez, E2. reflexivity.
+    + cbn [pack_codes]. rewrite Ep, E3. reflexivity.
+Qed.
+
+Lemma to_from p : Forall (fun b => b < 256) p ->
+  exists s, from2bit [] p = Ok s /\ to2bit [] s = Ok p.
+Proof.
+  intros H. destruct (to_from_codes p H) as (ls & cs & E1 & E2 & E3).
+  exists (concat ls). split.
+  - unfold from2bit. rewrite E1. reflexivity.
+  - rewrite to2bit_exact, E2, E3. reflexivity.
+Qed.
+
+(* DNAFrom2Bit is defined exactly on byte strings, keeps the prefix, gives four bases per byte *)
+Lemma from2bit_panics_iff dst p :
+  from2bit dst p = Panic <-> Exists (fun b => 256 <= b) p.
+Proof.
+  unfold from2bit. destruct (all_some (map from2bit_byte p)) as [ls|] eqn:E.
+  - split; [discriminate|]. intros H. exfalso.
+    assert (N : all_some (map from2bit_byte p) = None).
+    { apply all_some_map_none. eapply Exists_impl; [|exact H].
+      intros b Hb. apply from2bit_not_byte. exact Hb. }
+    congruence.
+  - split; [|reflexivity]. intros _. apply all_some_map_none in E.
+    eapply Exists_impl; [|exact E]. intros b Hb. cbv beta in Hb.
+    destruct (N.lt_ge_cases b 256) as [Hlt|Hge]; [|exact Hge].
+    destruct (from2bit_recode b Hlt) as (w & x & y & z & _ & _ & _ & _ & Eb & _). congruence.
+Qed.
